@@ -27,6 +27,7 @@ VARIANTS = {
     "fips": ["D=" + " ".join([GUARD] + ASDEFS), "FIPS_MODE=y"],
     "nohook": ["D=" + " ".join(ASDEFS)],
     "nosafe": ["D=" + " ".join([GUARD] + ASDEFS), "SAFE_DATA=n"],
+    "dbg": ["D=" + " ".join([GUARD] + ASDEFS), "lib_debug=1"],     # no -DNDEBUG: assertions are live (as in the autotools build)
     "fipsnsp": ["D=" + " ".join([GUARD] + ASDEFS), "FIPS_MODE=y", "SAFE_PARAM=n"],     # FIPS gate without the parameter checks
 }
 
